@@ -99,7 +99,6 @@ deriving Repr, DecidableEq
 /-! ## canonical JSON rendering -/
 
 def q (s : Str) : Str := 34 :: s ++ [34]                    -- "s"  (s is plain: no escapes needed)
-def s! (w : String) : Str := str w
 def replySubj : Str := str "REPLY"
 
 def jstr (w : String) : Str := q (str w)
@@ -376,5 +375,28 @@ def process (cfg : HCfg) (r : ReqIn) (script : List Action) : List Eff :=
       match runScript cfg r s0 script with
       | .cont s => if s.replied then s.effs else s.effs ++ [.pub replySubj missingResponse]
       | .panic s p => (recoverArm s p).effs
+
+end GoRes.Req
+
+namespace GoRes.Req
+open GoRes
+
+/-- `handleRequest`: split `<type>.<resource>[.<method>]`; `none` = dropped without response -/
+def splitSubject (subj : Str) : Option (Str × Str × Str) :=
+  let rtype := subj.takeWhile (· ≠ 46)
+  if rtype.length = subj.length then none
+  else
+    let rname := subj.drop (rtype.length + 1)
+    if rtype = str "call" ∨ rtype = str "auth" then
+      -- strings.LastIndexByte(rname, '.')
+      let rev := rname.reverse
+      let m := rev.takeWhile (· ≠ 46)
+      if m.length = rname.length then none
+      else some (rtype, (rev.drop (m.length + 1)).reverse, m.reverse)
+    else some (rtype, rname, [])
+
+def rtypeOf (t : Str) : Option RType :=
+  if t = str "access" then some .access else if t = str "get" then some .get
+  else if t = str "call" then some .call else if t = str "auth" then some .auth else none
 
 end GoRes.Req
